@@ -63,6 +63,14 @@ SplitAgrees ==
         /\ \A i \in 1..Len(s) : /\ R.ranges[i][1] = N!RngStart(s[i])
                                 /\ R.ranges[i][2] = N!RngEnd(s[i])
 
+(* "terminates": termRange.Enumerate walks every emitted range byte string *)
+(* by byte string; a query is answered in reasonable time only if that walk *)
+(* is short (judged in a config of its own: open finding)                   *)
+EnumLimit == 1048576
+SplitEnumBounded ==
+  Is("split") /\ (\A i \in 1..Len(R.ranges) : RangeWF(R.ranges[i])) =>
+     \A i \in 1..Len(R.ranges) : N!EnumWithin(R.ranges[i][1], R.ranges[i][2], EnumLimit)
+
 -----------------------------------------------------------------------------
 (* float <-> sortable int64, prefix coding *)
 FloatOrderModel == Is("float") => (R.lt <=> N!FloatLess(R.a, R.b))
